@@ -176,6 +176,38 @@ Section BlockGen.
       cbn [map]. unfold zsum in *. cbn [fold_right]. rewrite IH. ring. }
     rewrite Ez. ring.
   Qed.
+  (* a quantity of a plaquette that depends only on the base face it is a copy of takes one of the base values *)
+  Theorem block_value (X : Type) (bv : list (nat * bool) -> X) (gv : plaquette -> X) :
+    (forall t f l1 l2, t < N -> In f faces -> f = l1 ++ l2 ->
+       gv (mk_plaquette L (twalk L (t_bc c) tr eid t (l2 ++ l1))) = bv f) ->
+    forall ps, find_all_plaquettes L = Some ps -> forall p, In p ps -> In (gv p) (map bv faces).
+  Proof.
+    intros Hgv.
+    apply (periodic_plaquette_value L block_good N ns ne (t_bj c) (t_bk c) (t_bc c) tr eid
+             (b_ecell N kint eo tr) (b_ebase N kint) (t_bvec c) al be (c_brot rots)).
+    - exact Hal.
+    - exact Hbe.
+    - intros e He. apply (block_ends e He).
+    - exact Htr_lt.
+    - exact Htr0.
+    - exact Htr_add.
+    - intros n e Hn He. rewrite HnE. apply (b_eid_lt N kint ne eo tr Hk Htr_lt); assumption.
+    - intros x Hx'. rewrite HnE in Hx'.
+      apply (b_dec N kint ne eo tr Hk Htr_lt Htr0 Htr_add x Hx').
+    - apply (b_eid_inj N kint ne eo tr Hk Htr_lt Htr0 Htr_add).
+    - exact Hedge.
+    - exact Hvec.
+    - apply (cert_nz c rots faces Hcert).
+    - intros s e b Hs. apply (cert_rot c rots faces Hcert s Hs).
+    - intros s Hs. apply (cert_rot c rots faces Hcert s Hs).
+    - intros f Hf. apply (cert_face c rots faces Hcert f Hf).
+    - intros f Hf. apply (cert_face c rots faces Hcert f Hf).
+    - intros f Hf. apply (cert_face c rots faces Hcert f Hf).
+    - intros f Hf. apply (cert_face c rots faces Hcert f Hf).
+    - apply dnodupb_spec. apply (cert_parts c rots faces Hcert).
+    - apply (cert_cover c rots faces Hcert).
+    - exact Hgv.
+  Qed.
 End BlockGen.
 
 (* ================================================================== honeycomb_lattice *)
@@ -194,6 +226,13 @@ Lemma hc_cert :
   cell_cert_okb hc_cell hc_rots hc_faces = true /\ map (@length _) hc_faces = [6; 6] /\
   edges_xsmallb hc_cell hc_faces = true.
 Proof. vm_compute. repeat split; reflexivity. Qed.
+
+Lemma nth_map_const_one {A} (l : list A) i : i < length l -> nth i (map (fun _ => 1%Z) l) 0%Z = 1%Z.
+Proof. revert i; induction l as [|a l IH]; intros i Hi; [cbn in Hi; lia|]. destruct i; [reflexivity|]. cbn. apply IH. cbn in Hi. lia. Qed.
+
+Lemma prod_sgn_app (a b : list Z) :
+  fold_right Z.mul 1%Z (a ++ b) = (fold_right Z.mul 1%Z a * fold_right Z.mul 1%Z b)%Z.
+Proof. induction a as [|x a IH]; cbn [app fold_right]; [lia|]. rewrite IH. ring. Qed.
 
 Ltac tonat H k := rewrite (znth_nat _ _ _ k) in H by lia.
 
@@ -396,6 +435,60 @@ Section HC.
     - intros m e Hm He'. apply hc_vec; assumption.
     - intros m e Hm He'. apply simple_nsl; assumption.
     - fold N. rewrite hc_scale, HN. unfold hc_D. change (uc_scale hc_cell) with 12%Z. ring.
+  Qed.
+  (* make_honeycomb(L): u = +1 on every bond puts every hexagon in the flux sector +1, ALL n >= 2 *)
+  Theorem honeycomb_flux_all_sizes : (2 <= n)%Z ->
+    forall ps, find_all_plaquettes L = Some ps -> forall p, In p ps -> flux_of (make_honeycomb_ujk n) p = 1%Z.
+  Proof.
+    intros Hn2 ps Hps p Hp. pose proof hc_nv as Hnv. destruct hc_cert as (Hwf & Hs & Hc & Hl & He).
+    destruct (honeycomb_index_structure_claim n Hn) as (_ & (LP & LE & LC & _ & LU) & _). cbv zeta in LP, LE, LC, LU.
+    fold nv in LP, LE, LC, LU. pose proof hc_N as HN. unfold zlen in LP, LE, LC, LU.
+    set (fd := fun l : list bool => (nth (length l mod 4) [1; -1; -1; 1] 0 *
+                 fold_right Z.mul 1 (map (fun b : bool => if b then 1 else -1) l))%Z).
+    assert (Hin : In (flux_of (make_honeycomb_ujk n) p) (map (fun f => fd (map snd f)) hc_faces)).
+    { revert ps Hps p Hp.
+      apply (block_value hc_cell n nv (nv * hc_D) (n * hc_D) 3 hc_eo L hc_rots hc_faces (t_tr n nv)
+               (t_tr_lt n nv Hn Hnv) (t_tr0 n nv Hn Hnv) (t_tr_add n nv Hn Hnv)); try assumption.
+      - unfold hc_D. lia.
+      - unfold hc_D. lia.
+      - cbn. lia.
+      - apply (edges_xsmall_ok _ _ _ _ Hn2 He).
+      - rewrite hc_scale. unfold hc_D. nia.
+      - assert (X : Z.of_nat (nE L) = (6 * (nv * n))%Z) by (unfold L, to_lattice, nE; cbn [edges]; rewrite map_length; exact LE).
+        change (t_ne hc_cell) with 6. fold N. lia.
+      - assert (X : Z.of_nat (length (crossing L)) = (6 * (nv * n))%Z) by exact LC.
+        change (t_ne hc_cell) with 6. fold N. lia.
+      - assert (X : Z.of_nat (nV L) = (4 * (nv * n))%Z) by exact LP.
+        change (t_ns hc_cell) with 4. fold N. lia.
+      - intros m e Hm He'. change (t_ns hc_cell) with 4. apply hc_edge; assumption.
+      - intros m e Hm He'. apply hc_vec; assumption.
+      - intros m e Hm He'. apply simple_nsl; assumption.
+      - intros t f l1 l2 Ht Hf E.
+        change (b_eid (t_N n nv) 3 hc_eo (t_tr n nv)) with eid.
+        set (w := twalk L (t_bc hc_cell) (t_tr n nv) eid t (l2 ++ l1)).
+        assert (Hfe : forall d, In d (l2 ++ l1) -> fst d < 6).
+        { intros d Hd. destruct (cert_face hc_cell hc_rots hc_faces Hc f Hf) as (_ & Hfe & _).
+          apply Hfe. rewrite E. apply in_or_app. apply in_app_or in Hd. tauto. }
+        assert (HnE : nE L = 6 * N).
+        { assert (X : Z.of_nat (nE L) = (6 * (nv * n))%Z) by (unfold L, to_lattice, nE; cbn [edges]; rewrite map_length; exact LE). lia. }
+        destruct (twalk_darts L N 6 (t_bc hc_cell) (t_tr n nv) eid (t_tr_lt n nv Hn Hnv)
+                    (fun m e Hm He' => eq_ind_r (fun k => _ < k) (b_eid_lt N 3 6 hc_eo (t_tr n nv) ltac:(lia) (t_tr_lt n nv Hn Hnv) m e Hm He') HnE)
+                    (l2 ++ l1) t Ht Hfe) as [D1 D2].
+        fold w in D1, D2.
+        unfold flux_of, mk_plaquette, n_sides. cbn [p_edges p_dirs]. rewrite combine_walk.
+        assert (Eprod : forall l, (forall d, In d l -> fst d < nE L) ->
+                  fold_right Z.mul 1%Z (map (fun ed : nat * bool => (nth (fst ed) (make_honeycomb_ujk n) 0 * (if snd ed then 1 else -1))%Z) l)
+                  = fold_right Z.mul 1%Z (map (fun b : bool => if b then 1%Z else (-1)%Z) (map snd l))).
+        { induction l as [|d l IH]; intros Hl'; [reflexivity|]. cbn [map fold_right]. rewrite IH by (intros x Hx; apply Hl'; right; exact Hx).
+          f_equal. unfold make_honeycomb_ujk.
+          assert (Hd : fst d < length (honeycomb_edges n)).
+          { specialize (Hl' d (or_introl eq_refl)). unfold L, to_lattice, nE in Hl'. cbn [edges] in Hl'. rewrite map_length in Hl'. exact Hl'. }
+          rewrite (nth_map_const_one _ _ Hd). lia. }
+        rewrite (Eprod _ D2), D1. unfold walk_edges. rewrite map_length.
+        replace (length w) with (length (l2 ++ l1)) by (unfold w; symmetry; apply twalk_length).
+        unfold fd. rewrite !map_length, E, !app_length, !map_app, Nat.add_comm. f_equal.
+        rewrite !prod_sgn_app. ring. }
+    clear -Hin. revert Hin. vm_compute. intuition.
   Qed.
 End HC.
 
@@ -879,4 +972,14 @@ Proof.
   - intros n H. apply (hso_area_all_sizes n ltac:(lia) H).
   - exact tri_non_area_all_sizes.
   - intros nx ny Hx Hy. apply (square_area_all_sizes nx ny ltac:(lia) ltac:(lia) Hx Hy).
+Qed.
+
+(* make_honeycomb(L) for ALL L >= 2, in the shape of the bounded theorem *)
+Lemma make_honeycomb_flux_all_sizes_claim :
+  forall n, (2 <= n)%Z ->
+  exists ps, find_all_plaquettes (to_lattice (honeycomb n)) = Some ps /\
+             forall p, In p ps -> flux_of (make_honeycomb_ujk n) p = 1%Z.
+Proof.
+  intros n Hn. destruct (honeycomb_census_all_sizes n Hn) as (ps & Hf & _).
+  exists ps. split; [exact Hf|]. apply (honeycomb_flux_all_sizes n ltac:(lia) Hn ps Hf).
 Qed.
